@@ -72,6 +72,7 @@ class Ctl:
         self.fuel = 10 ** 9
         self.events = 0
         self.busy_until = 0
+        self.pending: list = []       # (service name, invoke event type, future) of driver-controlled services
         self.live_timers: list = []   # (owner, event type, due ms, task) recorded by the traced async engine
 
     def reset(self) -> None:
@@ -146,6 +147,24 @@ def make_logic(ctl: Ctl, actions: List[str], guards: List[str], services=None, d
             finally:
                 ctl.busy_until = 0
         return slow
+
+    def mk_service(name: str):
+        async def svc(interp, ctx, event):
+            import asyncio as _aio
+
+            fut = _aio.get_event_loop().create_future()
+            ctl.pending.append((name, event.type, fut))
+            ctl.emit("svc_called", name, event.type)
+            try:
+                return await fut
+            finally:
+                ctl.pending[:] = [p for p in ctl.pending if p[2] is not fut]
+        return svc
+
+    services = dict(services or {})
+    for sname in list(services):
+        if services[sname] == "driver":
+            services[sname] = mk_service(sname)
 
     return MachineLogic(
         actions={a: (mk_slow(a) if a.startswith("slow:") else mk_action(a)) for a in actions},
@@ -246,6 +265,10 @@ class _TraceMixin:
         kind = "sched" if sys._getframe(1).f_code.co_name == "_enter_states" else "rearm"
         self._ctl.emit(kind, state.id)
         return super()._schedule_state_tasks(state)
+
+    def _invoke_service(self, invocation, service, owner_id):
+        self._ctl.emit("invoke", owner_id, invocation.id)
+        return super()._invoke_service(invocation, service, owner_id)
 
     def _after_timer(self, delay_sec, event, owner_id):
         self._ctl.emit("arm", owner_id, event.type)
